@@ -65,6 +65,11 @@ def install():
 
 def plan(tier, rng, sl, nslices, stats):
     cfg = TIERS[tier]
+    if sl == 0:
+        # scale cases (one worker): forty variables, a chain of 1200 variables, a body of a dozen symbols
+        for c in (gcfg.wide_case(rng), gcfg.long_chain_case(1200), gcfg.long_body_case(rng), gcfg.long_body_case(rng)):
+            c["prefix"] = 0
+            yield c
     for i in range(cfg["random"]):
         if i % 40 == 39:
             c = gcfg.large_case(rng)
@@ -136,6 +141,22 @@ def run_case(c, stats):
                 call(g2.contains, list(w))
             for w in gcfg.words_over(terms, 2, foreign=False):
                 call(g.contains, list(w))          # ... and the first grammar again
+    for w in c.get("long_words", ()):
+        call(g.contains, [gcfg.tval(c, j) for j in w])          # long members and near-members
+    if c.get("longbody"):
+        # the normal form (ten or more helper variables) extended by a new long production and normalised again
+        from pyformlang.cfg import CFG, Production, Variable, Terminal
+        ok3, nf = call(g.to_normal_form)
+        if ok3:
+            s_ = g.start_symbol
+            extra = Production(s_, [Terminal(gcfg.tval(c, 0)), s_, Terminal(gcfg.tval(c, 1)), Terminal(gcfg.tval(c, 2))])
+            ok4, g3 = call(CFG, start_symbol=s_, productions=set(nf.productions) | {extra})
+            if ok4:
+                for w in list(gcfg.words_over(terms, 3, foreign=False)) + [[gcfg.tval(c, j) for j in w] for w in c["long_words"]]:
+                    call(g3.contains, list(w))
+                for w in c["long_words"][:2]:
+                    ww = [gcfg.tval(c, j) for j in w]
+                    call(g3.contains, [gcfg.tval(c, 0)] + ww + [gcfg.tval(c, 1), gcfg.tval(c, 2)])
     call(lambda: [] in g)
     call(lambda: terms[:1] in g)
     call(g.generate_epsilon)
